@@ -112,21 +112,26 @@ Senders(r, k) == {m \in adj[rq[r].node] : k \in has[m]} \cup (IF k \in larr[r] T
 
 \* D: k announced locally while r was waiting for it, and the session has a peer to send the stale want to
 ExcD(n, k) == \E r \in SameNodeReqs(n) : k \in KeySet(r) /\ k \in larr[r] /\ \E m \in adj[n] : SessPeer(r, m)
-\* E: a session peer that did not hold k when r was issued (DONT_HAVE), k received or given up since
+\* E: a peer that did not hold k when r was issued and is a session peer because of ANOTHER key (so it was
+\*    asked for k with send-dont-have and answered DONT_HAVE), k received or given up since
 ExcE(n, k) == \E r \in SameNodeReqs(n) : /\ k \in KeySet(r) /\ (~Open(r) \/ k \in Got(r))
-                                          /\ \E m \in adj[n] : k \notin hasAt[r][m] /\ SessPeer(r, m)
+                                          /\ \E m \in adj[n] : k \notin hasAt[r][m] /\ (SessKeys(r) \ {k}) \cap has[m] # {}
 \* C: delivered on a long-lived session that is still open, published by a local announcement or by
 \*    another session's traffic before the session had registered the want
 ExcC(n, k) == \E r \in SameNodeReqs(n) :
                  /\ rq[r].s # 0 /\ sess[rq[r].s].st = "open" /\ k \in Got(r)
                  /\ k \in larr[r] \/ \E q \in SameNodeReqs(n) : q # r /\ rq[q].s # rq[r].s /\ k \in KeySet(q)
 ExcF(n, k) == \E r \in SameNodeReqs(n) : k \in kF[r]
+\* A, leak facet: the sibling's late opCancel withdraws the interest the other call re-registered after a
+\*    receipt; the sender's wants for it are then never cancelled
+ExcA(n, k) == \E r \in SameNodeReqs(n) : k \in kA[r]
 \* B: k received (from src) while a second session peer m2 can still trigger a send
 ExcB(n, k) == \E r \in SameNodeReqs(n) : /\ MayHaveReceived(r, k)
                                           /\ \E src \in Senders(r, k), m2 \in adj[n] : m2 # src /\ SessPeer(r, m2)
 
 Excuse(n, k) == IF "Dev_C37_LocalBlockWantLeak" \in Devs /\ ExcD(n, k) THEN "Dev_C37_LocalBlockWantLeak"
            ELSE IF "Dev_C37_RewantAfterCancel" \in Devs /\ ExcF(n, k) THEN "Dev_C37_RewantAfterCancel"
+           ELSE IF "Dev_C37_SharedWantCancelled" \in Devs /\ ExcA(n, k) THEN "Dev_C37_SharedWantCancelled"
            ELSE IF "Dev_C37_WantAfterDelivery" \in Devs /\ ExcC(n, k) THEN "Dev_C37_WantAfterDelivery"
            ELSE IF "Dev_C37_LateWantAfterReceive" \in Devs /\ ExcB(n, k) THEN "Dev_C37_LateWantAfterReceive"
            ELSE IF "Dev_C37_BroadcastAfterCancel" \in Devs /\ ExcE(n, k) THEN "Dev_C37_BroadcastAfterCancel"
